@@ -4,7 +4,47 @@ import tempfile
 import traceback
 
 
+def run_date_vectors():
+    """a group whose members are named before_X / after_X / after_Y indexed by an array of dates, at day, month, year and second
+    resolution: element i is the value the tree defines (at the date of the view) for the member whose range contains dates[i]"""
+    import datetime
+    import numpy
+    from openfisca_core.parameters import ParameterNode
+    bad = []
+    marks = [(1951, 7, 1), (1952, 1, 15), (1953, 3, 1), (1955, 1, 1)]
+    data = {"before_1951_07_01": {"values": {"2000-01-01": {"value": 60}}}}
+    for k, (y, m, d) in enumerate(marks):
+        data["after_%04d_%02d_%02d" % (y, m, d)] = {"values": {"2000-01-01": {"value": 61 + k}, "2019-01-01": {"value": 71 + k}}}
+    tree = ParameterNode("", data={"age": data})
+    days = [datetime.date(1950, 1, 1), datetime.date(1951, 6, 30), datetime.date(1951, 7, 1), datetime.date(1951, 7, 2), datetime.date(1952, 1, 1),
+            datetime.date(1952, 1, 14), datetime.date(1952, 1, 15), datetime.date(1953, 2, 28), datetime.date(1953, 3, 1), datetime.date(1954, 12, 31),
+            datetime.date(1955, 1, 1), datetime.date(1990, 5, 5)]
+    for instant in ("2010-01-01", "2020-01-01"):
+        view = tree.get_at_instant(instant).age
+        leaves = [tree.age.children["before_1951_07_01"].get_at_instant(instant)] + \
+            [tree.age.children["after_%04d_%02d_%02d" % mk].get_at_instant(instant) for mk in marks]
+        for unit in ("D", "M", "Y", "s"):
+            keys = numpy.array([d.isoformat() for d in days], dtype="datetime64[D]").astype(f"datetime64[{unit}]")
+            got = view[keys]
+            for j, key in enumerate(keys):
+                day = key.astype("datetime64[D]").astype(datetime.date)      # numpy's meaning of a coarse date: the first day of the unit
+                want = leaves[sum(1 for mk in marks if datetime.date(*mk) <= day)]
+                if float(got[j]) != float(want):
+                    bad.append(f"view at {instant}, key {key} ({unit}): {float(got[j])}, the tree defines {float(want)} for {day}")
+        one = view[numpy.array(["1952-01-15"], dtype="datetime64[D]")]
+        if float(one[0]) != float(leaves[2]):
+            bad.append(f"one-element key at {instant}: {float(one[0])} instead of {float(leaves[2])}")
+    return bad
+
+
 def run(scenario):
+    if scenario == "date-vectors":
+        try:
+            bad = run_date_vectors()
+            return {"kind": "return", "value": {"ok": not bad, "detail": bad[:4]}}
+        except BaseException as ex:
+            return {"kind": "raise", "exc": type(ex).__name__, "mro": [c.__name__ for c in type(ex).__mro__],
+                    "msg": str(ex)[:300], "tb": traceback.format_exc()[-1500:]}
     from openfisca_core import entities, reforms, taxbenefitsystems
     from openfisca_core.parameters import ParameterNode
     try:
